@@ -1154,7 +1154,12 @@ pub fn replay_prim(pc: &crate::types::PrimCase) -> Result<Option<String>, String
         "hpke_open" => {
             let ct = HpkeCiphertext { kem_output: a(0), ciphertext: a(1) };
             let aad = a(6);
-            let _ = suite.hpke_open(&ct, &a(2).into(), &a(3).into(), &a(4), if a(5) == [1] { Some(&aad[..]) } else { None });
+            let r = suite.hpke_open(&ct, &a(2).into(), &a(3).into(), &a(4), if a(5) == [1] { Some(&aad[..]) } else { None });
+            eprintln!("replayed hpke_open on {}: {}", pc.primary, match &r { Ok(_) => "accepts".to_string(), Err(e) => format!("rejects ({})", e.0) });
+            if let Some(c) = &suite.cross {
+                let r2 = disp!(c, s => s.hpke_open(&ct, &a(2).into(), &a(3).into(), &a(4), if a(5) == [1] { Some(&aad[..]) } else { None }));
+                eprintln!("replayed hpke_open on {}: {}", pc.cross, match &r2 { Ok(_) => "accepts".to_string(), Err(e) => format!("rejects ({})", e.0) });
+            }
         }
         "kem_derive" => {
             let _ = suite.kem_derive(&a(0));
